@@ -91,7 +91,21 @@ func harness_C18_report() {
 		}
 	}
 
-	q.tryDelivery(meta, hdr, qd.body)
+	attemptBody := qd.body
+	if verifParam("reread", 0) == 1 {
+		// a later attempt (or a restart): the attempt works on metadata written to
+		// the spool and read back
+		if err := q.updateMetadataOnDisk(meta); err != nil {
+			verifStop()
+		}
+		m2, h2, b2, err := q.openMessage("msg1")
+		if err != nil {
+			verifFail("C18.spooled-message-unreadable")
+		}
+		meta, hdr, attemptBody = m2, h2, b2
+		verifCover("C18.attempt-on-reread-metadata")
+	}
+	q.tryDelivery(meta, hdr, attemptBody)
 
 	// ---- ground truth ----
 	d := tgt.deliveries[0]
